@@ -117,6 +117,16 @@ CLAIMED = {
             "written to), reported cp, xmin, xmax are converted back to measured units, the fit column is the "
             "model at k*x. That the optimiser returns corresponding minimisers is assumed and exercised bounded.",
             "3 C11"),
+    "C20": ("other", "contract-based deductive verification of nanite's glue code: progress arithmetic of load_data for a "
+            "symbolic file index (loop body executed once for an arbitrary iteration), append precondition, "
+            "unit/NaN/warning contracts of the three uncached map features; afmformats assumed; bounded runs on "
+            "recorded files and maps",
+            "For every number of files and every file index the value handed to the callback is (files done + "
+            "fraction)/n, within [0,1], monotone within and across files, ending at 1; every load uses the "
+            "Indentation class; append refuses exactly when neither spring constant nor tip position exists; the "
+            "map features return cp*1e9 nm / E in Pa / the current rating or NaN with one warning and are not "
+            "cached. One object per curve and pixel placement are afmformats' (assumed, exercised bounded).",
+            "3 C20"),
 }
 
 NOT_APPLICABLE = {
